@@ -335,6 +335,46 @@ def k_c06(ctx):
         if outcome(x) != outcome(y) or (x.get("ok") and rep_diffs(compare.canon_rust(x["report"]), compare.canon_rust(y["report"]))):
             ctx.violation("file split changes the report", {"files_joined": c["dsl"], "case_id": gid, "code_files": x, "code_whole": y}, found_input=True)
 
+    files_through_cli(ctx, srcs)
+
+def files_through_cli(ctx, srcs):
+    """The real thing: `cgt-tool report a.cgt b.cgt [c.cgt]` and `cgt-tool parse ...` against the same lines in one file, with every
+    way a file can end (no final newline, LF, CRLF, a lone CR, a comment without newline, blank lines) and an empty file among them."""
+    import subprocess, shutil, os
+    from . import build
+    rng = ctx.rng
+    root = os.path.join(build.CACHE, "run", "c06-%d" % os.getpid()); shutil.rmtree(root, ignore_errors=True); os.makedirs(root)
+    def cli(args, wd):
+        p = subprocess.run([build.CLI] + args, cwd=wd, stdout=subprocess.PIPE, stderr=subprocess.PIPE, env=dict(build.ENV, HOME=wd), timeout=120)
+        return p.returncode, p.stdout, p.stderr
+    ENDS = ["", "\n", "\r\n", "\r", "\n\n", "\n# trailing comment", "  # trailing comment\n", "\n   \n"]
+    try:
+        n = 0
+        for gid, base in srcs[:ctx.n(60, 900)]:
+            if len(base) < 2: continue
+            perm = list(base); rng.shuffle(perm)
+            k = rng.choice([2, 2, 3]); cuts = sorted(rng.sample(range(1, len(perm)), min(k - 1, len(perm) - 1)))
+            parts = [perm[i:j] for i, j in zip([0] + cuts, cuts + [len(perm)])]
+            if rng.random() < 0.2: parts.insert(rng.randint(0, len(parts)), [])        # an empty file
+            wd = os.path.join(root, "f%d" % n); os.makedirs(wd); n += 1
+            names = []; ends = []
+            for i, part in enumerate(parts):
+                body = "\n".join(ledger.render_line(l) for l in part); end = rng.choice(ENDS) if part else rng.choice(["", "\n"])
+                open(os.path.join(wd, "p%d.cgt" % i), "w", newline="").write(body + end); names.append("p%d.cgt" % i); ends.append(end)
+            open(os.path.join(wd, "whole.cgt"), "w", newline="").write(ledger.render(perm))
+            for cmd in (["report", "--format", "json"], ["parse"]):
+                a = cli([cmd[0]] + names + cmd[1:], wd); b = cli([cmd[0], "whole.cgt"] + cmd[1:], wd)
+                ctx.evaluations += 2; ctx.count("cli_file_split_" + cmd[0], "ok" if b[0] == 0 else "refused")
+                for e in ends: ctx.count("file_ending", repr(e))
+                same = (a[0] == b[0]) and (a[1] == b[1] if b[0] == 0 else True)
+                if not same:
+                    ctx.violation("`cgt-tool %s` over %d files differs from the same lines in one file (exit %s vs %s)" % (cmd[0], len(names), a[0], b[0]),
+                                  {"files": {nm: open(os.path.join(wd, nm), newline="").read() for nm in names}, "whole": ledger.render(perm), "command": cmd,
+                                   "stderr_files": a[2][-300:].decode("utf-8", "replace"), "stdout_files": a[1][-400:].decode("utf-8", "replace"), "stdout_whole": b[1][-400:].decode("utf-8", "replace")}, found_input=True)
+                    break
+    finally:
+        shutil.rmtree(root, ignore_errors=True)
+
 # ---------- C07 ----------
 def k_c07(ctx):
     from . import run
